@@ -75,7 +75,7 @@ theorem popMin_sublist : ∀ (l : List (QEntry ℚ)) (m : QEntry ℚ) (rest : Li
       split at h
       · simp only [Option.some.injEq, Prod.mk.injEq] at h
         rw [← h.2]
-        exact ih.cons₂ x
+        exact ih.cons_cons x
       · simp only [Option.some.injEq, Prod.mk.injEq] at h
         rw [← h.2]
         exact List.sublist_cons_self x xs
